@@ -92,9 +92,7 @@ func c28Draw(rt *rapid.T) C28Case {
 			q.Key = rapid.SampledFrom(keysUsed).Draw(rt, "key")
 		case 5:
 			q.Kind = "qfile"
-			if npkg > 0 {
-				q.Pkg = rapid.IntRange(0, npkg-1).Draw(rt, "pkg")
-			}
+			q.Pkg = rapid.IntRange(-1, npkg-1).Draw(rt, "pkg")
 		case 6, 7:
 			q.Kind = "acct"
 			q.Acc = rapid.IntRange(0, c.NAcc-1).Draw(rt, "acc")
